@@ -49,6 +49,8 @@ def build(tier, seed):
                         ok = (name == "chain2x3" and lim <= 2) or (name in ("deg3_2x4", "star3x4") and lim == 1)
                     if not ok:
                         continue
+                    if "Aminstar" in ty and sched == "flooding" and name not in ("chain2x3", "deg3_2x4", "star3x4"):
+                        continue  # flooding A-Min* on 3x5 and larger: > 12 GB / 3600 s (symbolic argmin => symbolic destinations)
                 hn = "c01_%s_%s_l%d" % (impl, name, lim)
                 unw = max(maxw, lim) + 3
                 w = 2.0 if lim == 0 else (4.0 + sum(len(x) for x in rows)) * lim * (2.0 if "Aminstar" in ty else 1.0)
